@@ -19,6 +19,9 @@ type Explorer struct {
 	// Shard/NShards restrict the search to the level-1 subtrees whose ordinal is
 	// congruent to Shard; the root execution belongs to shard 0.
 	Shard, NShards int
+	// FromMark restricts branching to scheduling points after the harness's Mark call
+	// (executions that never reach the mark are not branched at all).
+	FromMark bool
 	// Stop, when non-nil and returning true, ends the search early (budget).
 	Stop func() bool
 
@@ -108,7 +111,7 @@ func (e *Explorer) explore(prefix []int) {
 	dev := 0
 	ord := 0
 	for i, p := range x.Points {
-		if i >= len(prefix) && dev+1 <= e.Bound {
+		if i >= len(prefix) && dev+1 <= e.Bound && (!e.FromMark || (x.Mark >= 0 && i >= x.Mark)) {
 			for alt := 1; alt < p.Enabled; alt++ {
 				if root {
 					ord++
